@@ -199,6 +199,13 @@ package period
 //@ let w = num(yyyyWww[6:len(yyyyWww)])
 // (a cut at the first date construction: by then the two numbers have been read off the string)
 //@ before NewDate assert year == num(yyyyWww[0:4]) && week == num(yyyyWww[6:len(yyyyWww)]) && 0 <= year && year <= 9999 && 1 <= week && week <= 99
+// (a cut at every rejection in the function's own body: the string does not name a week of its year)
+//@ before New assert !(m && 1 <= w && w <= klog.isoweek(dn(y, 12, 28)))
+// (a cut at the final check: the reference date is the Monday on or before 1 July moved by whole weeks - the very day
+// number the lemma speaks about)
+//@ before WeekNumber#2 assert klog.ddn(reference) == (dn(y, 7, 1) - wk(dn(y, 7, 1))) + 7 * (w - klog.isoweek(dn(y, 7, 1) - wk(dn(y, 7, 1))))
+// (... and there the lemma applies, once, for everything that follows)
+//@ before WeekNumber#2 assert klog.isoweek(klog.ddn(reference)) == w && klog.isoyear(klog.ddn(reference)) == y && wk(klog.ddn(reference)) == 0
 //@ use weekOfYear(y, w)
 //@ ensures implies(result1 == nil, m && 1 <= w && w <= klog.isoweek(dn(y, 12, 28)))
 //@ ensures implies(m && 1 <= w && w <= klog.isoweek(dn(y, 12, 28)), result1 == nil)
